@@ -19,7 +19,11 @@ func vGlobalRules() map[string]bool {
 	return map[string]bool{"r1": true, "r2": true, "r3": true}
 }
 
-func vStr(name string) string { return vndString(name, 1) }
+// vStrMax: length bound of the symbolic leaf strings of the walker harnesses (1 in the quick tier; the
+// thorough wrappers H_CxxT_..._s2 rerun the same harnesses with 2)
+var vStrMax = 1
+
+func vStr(name string) string { return vndString(name, vStrMax) }
 
 type vIn struct {
 	N string `valid:"r1,required"`
